@@ -288,8 +288,13 @@ func runMEPairs(c *vsched.RunCtx, race bool) {
 				return out
 			}
 			if c.Replay != nil {
-				if c.Replay.Harness == "me-pairs" && c.Replay.Config == cfgName {
-					out, s := vsched.RunOnce(vsched.ExploreOpts{Race: race}, c.Replay.Choices, true, body)
+				if (c.Replay.Harness == "me-pairs" || c.Replay.Harness == "me-pairs+racy") && c.Replay.Config == cfgName {
+					ro := vsched.ExploreOpts{Race: true}
+					if c.Replay.Harness == "me-pairs+racy" {
+						p1 := vsched.Explore(vsched.ExploreOpts{Name: "me-pairs", Config: cfgName, PreemptBound: pre, DevBound: 1, Race: true}, body)
+						ro.YieldSites = p1.RaceSites
+					}
+					out, s := vsched.RunOnce(ro, c.Replay.Choices, true, body)
 					rr := &vsched.ReplayResult{Trace: s.Events}
 					for _, v := range out.Violations {
 						if v.Sig == c.Replay.Sig {
@@ -305,8 +310,14 @@ func runMEPairs(c *vsched.RunCtx, race bool) {
 				}
 				continue
 			}
-			res := vsched.Explore(vsched.ExploreOpts{Name: "me-pairs", Config: cfgName, PreemptBound: pre, DevBound: 1, Race: race, Deadline: c.Deadline}, body)
+			// race detection always on; in a property check the racy accesses become scheduling points of
+			// a second exploration (see harness/grpcgcp/pairs.go)
+			res := vsched.Explore(vsched.ExploreOpts{Name: "me-pairs", Config: cfgName, PreemptBound: pre, DevBound: 1, Race: true, Deadline: c.Deadline}, body)
 			c.Add(res)
+			if !race && len(res.RaceSites) > 0 {
+				res2 := vsched.Explore(vsched.ExploreOpts{Name: "me-pairs+racy", Config: cfgName, PreemptBound: 2, DevBound: 1, Race: true, YieldSites: res.RaceSites, Deadline: c.Deadline}, body)
+				c.Add(res2)
+			}
 		}
 	}
 }
